@@ -215,3 +215,20 @@ Example C04_ex_spec_applies :
   /\ body_attr_ok (attrs_of ex_method) (mkBinding "post" "/v1/{name=items/*}/{sub.class_=things/*}:one" (Some "sub")) = true.
 Proof. exact ex_spec_applies_full. Qed.
 Print Assumptions C04_ex_spec_applies.
+
+Example C04_ex_second_binding :
+  exists t b0, transcode (attrs_of add_method) (http_options add_method) [sleaf [F "parent"] "ps/p"] = Some t /\
+    0 < t_index t /\ nth_error (http_options add_method) 0 = Some b0 /\
+    body_attr_ok (attrs_of add_method) b0 = true /\ spec_applies b0 [sleaf [F "parent"] "ps/p"] = false.
+Proof. exact ex_second_binding. Qed.
+Print Assumptions C04_ex_second_binding.
+
+Example C04_ex_run_numeric :
+  run true ex_method ex_req =
+  Sent "post" "/v1/items/i1/things/t1:one"
+       [("kind", "1"); ("tags", "a"); ("tags", "b"); ("labels.k.x", "v"); ("from", "f"); ("class", "");
+        ("pageSize", "0"); ("flag", "false"); ("ratio", "0.0"); ("blob", "b''"); ("big", "0");
+        ("$alt", "json;enum-encoding=int")]%string
+       (Some [("count", "3")]%string).
+Proof. exact ex_run_numeric. Qed.
+Print Assumptions C04_ex_run_numeric.
